@@ -24,7 +24,7 @@ func c10Run(c *fw.Case, env *fw.Env) *fw.Obs {
 		return o
 	}
 	defer w.close()
-	if err := setupRemoteConfig(w); err != nil {
+	if err := setupRemoteConfig(w, &p); err != nil {
 		o.Status = "inconclusive"
 		o.Note = err.Error()
 		return o
@@ -41,6 +41,12 @@ func c10Run(c *fw.Case, env *fw.Env) *fw.Obs {
 	}
 	if p.FF != "" {
 		class += "/" + p.FF
+	}
+	if p.All {
+		class += "/all"
+	}
+	if p.TagSrc != "" {
+		class += "/tag-from-" + p.TagSrc
 	}
 	args := netArgs(w, &p)
 	out := runNetOp(w, &p, args)
@@ -281,6 +287,10 @@ func init() {
 			}
 			for i := 0; i < 6; i++ {
 				l.Add("fetch", netParams{Op: "fetch", N: 9, BaseRows: 4, Branches: 4, Tags: true, Force: "mixed"}, int64(1021+i))
+				l.Add("fetch", netParams{Op: "fetch", N: 9, BaseRows: 4, Branches: 4, Tags: true, All: true, Force: []string{"", "", "mixed"}[i%3]}, int64(1031+i))
+				l.Add("push", netParams{Op: "push", N: 9, BaseRows: 4, Branches: 2, Tags: true, TagSrc: []string{"short", "bare", "head"}[i%3]}, int64(1041+i))
+				l.Add("push", netParams{Op: "push", N: 9, BaseRows: 4, Branches: 2, Tags: true, TagRel: "clobber", TagSrc: []string{"short", "bare", "head", ""}[i%4]}, int64(1051+i))
+				l.Add("fetch", netParams{Op: "fetch", N: 9, BaseRows: 4, Branches: 2, Tags: true, TagRel: "clobber", All: i%2 == 0}, int64(1061+i))
 			}
 			for i := 0; i < l.N(150, 8000); i++ {
 				p := netParams{N: 4 + rng.Intn(9), BaseRows: 4, Branches: 1 + rng.Intn(4), Tags: rng.Intn(2) == 0}
@@ -297,6 +307,12 @@ func init() {
 					p.Rel = []string{"remote-ahead", "remote-ahead", "diverged", "diverged", "equal", "new", "remote-behind"}[rng.Intn(7)]
 				}
 				p.Force = []string{"", "", "", "global", "refspec", "mixed", "mixed"}[rng.Intn(7)]
+				if p.Op == "fetch" && rng.Intn(3) == 0 {
+					p.All = true // the same refspecs, taken from the remote's configuration by `fetch --all`
+				}
+				if p.Op == "push" && p.Tags {
+					p.TagSrc = []string{"", "short", "bare", "head"}[rng.Intn(4)]
+				}
 				if p.Op == "pull" {
 					p.Force = ""
 					if rng.Intn(2) == 0 {
